@@ -323,6 +323,45 @@ def c08_labelled_do_without_terminator():
     return _rejected("program p\n do 10 i=1,3\n x = 1\n y = 2\nend program p\n")
 
 
+def c14_directive_with_semicolon():
+    """D32 (fixed): '#define X a;b' is one directive"""
+    ok, obs = _only_syntax_error("program p\n#define X a;b\n x = 1\nend program p\n")
+    t = None
+    try:
+        t = str(_parser()(_reader("program p\n#define X a;b\n x = 1\nend program p\n")))
+    except BaseException as e:  # noqa
+        return False, dict(outcome="%s" % type(e).__name__)
+    return "#define X a;b" in t, dict(printed=t)
+
+
+def c14_directive_before_anonymous_main_program():
+    """D33 (fixed): '#ifdef X' in front of a main program without PROGRAM statement stays in the tree"""
+    t = str(_parser()(_reader("#ifdef X\n x = 1\n#endif\nend\n")))
+    return t.splitlines()[0].strip() == "#ifdef X", dict(printed=t)
+
+
+def c09_tables_of_earlier_units_remain_after_failure():
+    """D34: the tables of the units matched before a failing unit remain registered"""
+    return _failing_parse_leaves_nothing("module m2\nend module m2\nsubroutine s2\n x = = 1\nend subroutine s2\n")
+
+
+def c18_tree_from_file_reader_cannot_be_copied():
+    """D35: deepcopy / pickle of a tree whose reader holds an open file"""
+    import copy, os, pickle, tempfile
+    from fparser.common.readfortran import FortranFileReader
+    with tempfile.TemporaryDirectory() as d:
+        fn = os.path.join(d, "a.f90")
+        open(fn, "w").write("program p\n x = 1\nend program p\n")
+        t = _parser()(FortranFileReader(fn))
+        out = {}
+        for how, fn2 in (("deepcopy", copy.deepcopy), ("pickle", lambda x: pickle.loads(pickle.dumps(x)))):
+            try:
+                out[how] = str(fn2(t)) == str(t)
+            except BaseException as e:  # noqa
+                out[how] = "%s: %s" % (type(e).__name__, str(e)[:80])
+    return all(v is True for v in out.values()), out
+
+
 def c14_directive_backslash_at_eof():
     """D9: a directive whose last line ends in a backslash at end of input is lost"""
     r = _reader("x = 1\n#define X \\\n")
